@@ -60,3 +60,7 @@ def library_origin(e):
             if f.startswith(_LIB):
                 return f'{os.path.basename(fr.filename)}:{fr.name}'
     return None
+
+if os.environ.get('VERIF_COVER_DIR'):       # diagnostic only (tools/coverage_report.py)
+    from . import cover as _cover
+    _cover.start(REPO)
